@@ -504,11 +504,9 @@ func (w *Writer) Write(f feat.Feature) (n int, err error) {
 		if err != nil {
 			return
 		}
-		_, err = w.w.Write([]byte{'\n'})
-		if err != nil {
-			return
-		}
-		n++
+		var _n int
+		_n, err = w.w.Write([]byte{'\n'})
+		n += _n
 	}()
 
 	// Handle Bed types.
